@@ -25,7 +25,7 @@ ASSUMPTIONS = [
     "no particular split of the interval is required - only the stated invariant",
 ]
 HS_QUICK = [0.1, 0.05, 0.25]
-HS_ALL = [0.1, 0.05, 0.01, 0.25, 0.3, 1.0]
+HS_ALL = [0.1, 0.05, 0.01, 0.25, 0.3, 1.0, 1.0 / 30.0]
 T0_QUICK = [0.0, 10.0]
 T0_ALL = [0.0, 10.0, -3.0, 1000.0]
 RS = [0.0, 2.0 ** -30, 0.5, 1 - 2.0 ** -20, 1.0, 1 + 2.0 ** -20, 2.0, 2.5, 3.0, 7.3]
